@@ -5,6 +5,7 @@ from .. import sut
 from ..runner import R
 from ..gen import workbooks as G
 from ..gen import history as H
+from . import c08
 
 ID = 'C07'
 RULE = ('Model-based histories (Hypothesis, shrunk as one value): a workbook spec (dict or file path) and 2-8 operations drawn from '
@@ -26,6 +27,9 @@ def check_case(case):
     if case['k'] == 'sparse':
         from . import c08
         return c08.check_sparse(case)
+    if case['k'] == 'constname':
+        from . import c08
+        return c08.check_constname(case)
     spec = case['spec']
     with G.workdir() as d:
         r = H.Runner(spec, case['path'], d)
@@ -88,4 +92,5 @@ def parts(tier, seed):
     q = tier == 'quick'
     return [('hyp', 'histories', 2000 if q else 16000, 10),
             ('enum', 'array-range-histories', list(_array_range_histories()), 2, False),
-            ('enum', 'sparse-range-histories', _sparse(), 3, False)]
+            ('enum', 'sparse-range-histories', _sparse(), 3, False),
+            ('enum', 'constant-names', [c for c in c08.constname_cases() if c['mode'] != 'compile'], 2, False)]
